@@ -369,7 +369,8 @@ def apply_fault(ctx, tok, kind, fault, alg, path, placement, stride=1, tag=""):
         json_path = path in JSON_PATHS
         opts = []
         if path in GENERAL:
-            opts += ["empty-signatures", "tamper-first-of-two", "tamper-second-of-two", "drop-valid-keep-tampered"]
+            opts += ["empty-signatures", "tamper-first-of-two", "tamper-second-of-two", "drop-valid-keep-tampered",
+                     "append-forged-entry-with-copied-signature", "prepend-forged-entry-with-copied-signature", "append-entry-alg-none-with-copied-signature"]
         if path in ("flattened", "7797-flattened"):
             opts += ["add-empty-signatures-member"]
         if json_path:
@@ -392,6 +393,15 @@ def apply_fault(ctx, tok, kind, fault, alg, path, placement, stride=1, tag=""):
         elif edit == "drop-valid-keep-tampered":
             tok.members = [tok.members[1]]
             tok.members[0]["sig"] = flip(tok.members[0]["sig"], 3)
+        elif edit.endswith("with-copied-signature"):
+            # an extra entry whose header was never signed, carrying the signature octets of a genuine entry
+            src = tok.members[0]
+            forged = {"alg": alg if "alg-none" not in edit else "none", "kid": "signer-0", "typ": "forged", "admin": True}
+            extra = {"protected": rjws.hdr_json(forged).encode(), "header": None, "sig": src["sig"]}
+            if edit.startswith("append"):
+                tok.members.append(extra)
+            else:
+                tok.members.insert(0, extra)
         elif edit == "add-empty-signatures-member":
             tok.extra["signatures"] = []
         elif edit == "remove-payload":
@@ -556,6 +566,80 @@ def h_faults(ctx):
     return Outcome(f"{fault}:{'|'.join(sorted(set(buckets)))}", vs, nontrivial=(alg, kind, path, placement, desc), n=max(1, len(buckets)))
 
 
+# ------------------------------------------------------------------ what the caller does with a verified object must not reach later verifications
+def h_after_caller_edits(ctx):
+    """Two keys k1, k2 in one key set. A genuine token of k1 is verified; the caller edits the object it got back (header members,
+    payload attribute) in place; then a forged token is presented whose protected header is octet for octet that of the genuine one
+    (kid = k1) but whose signature was made with k2 - and a second genuine token. Every verification judges the octets it received."""
+    from joserfc import jws, jwt
+    from joserfc.jwk import KeySet
+    alg, kind = ctx.choose("alg/key", [("HS256", "oct32"), ("ES256", "P-256"), ("EdDSA", "Ed25519")])
+    ep = ctx.choose("entry_point", ["jws.deserialize_compact", "jwt.decode", "extract+validate", "jws.deserialize_json(flattened)"])
+    edit = ctx.choose("caller_edit", ["none", "header[kid]=k2", "header.pop(kid)", "header[alg]=none", "header.clear()", "payload/claims edited"])
+    k1, k2 = scen.key(kind, 0), scen.key(kind, 1)
+    pub = lambda j: j if j["kty"] == "oct" else rjwk.public_of(j)  # noqa
+    ks = KeySet([A.jkey({**pub(k1), "kid": "k1"}, "dict"), A.jkey({**pub(k2), "kid": "k2"}, "dict")])
+    hdr = {"alg": alg, "kid": "k1"}
+    seg = b64.enc(rjws.hdr_json(hdr).encode())
+
+    def mk(payload, jwk):
+        sig = b64.enc(jws_sign(alg, jwk, rjws.signing_input(seg, payload, True)))
+        if ep.endswith("(flattened)"):
+            return {"protected": seg, "payload": b64.enc(payload), "signature": sig}
+        return seg + "." + b64.enc(payload) + "." + sig
+    genuine1, genuine2, forged = mk(b'{"n":1}', k1), mk(b'{"n":2}', k1), mk(b'{"admin":true}', k2)
+
+    def verify(tok):
+        if ep == "jws.deserialize_compact":
+            o = jws.deserialize_compact(tok, ks, algorithms=[alg])
+            return o, o.protected, o.payload
+        if ep == "jwt.decode":
+            o = jwt.decode(tok, ks, algorithms=[alg])
+            return o, o.header, json.dumps(o.claims, separators=(",", ":")).encode()
+        if ep == "extract+validate":
+            o = jws.extract_compact(tok.encode())
+            if jws.validate_compact(o, ks, algorithms=[alg]) is not True:
+                raise ValueError("validate_compact returned a falsy value")
+            return o, o.protected, o.payload
+        o = jws.deserialize_json(copy.deepcopy(tok), ks, algorithms=[alg])
+        return o, o.member.protected, o.payload
+    vs = []
+    fam = alg[:2] if alg != "EdDSA" else alg
+    r1 = call(verify, genuine1)
+    if not r1.ok:
+        return Outcome("genuine-rejected", [viol(f"valid token rejected by {ep}: {fam}* with a two-key set", repr(r1.exc))], nontrivial=(alg, ep, edit))
+    obj, h, _ = r1.value
+    if edit == "header[kid]=k2":
+        h["kid"] = "k2"
+    elif edit == "header.pop(kid)":
+        h.pop("kid", None)
+    elif edit == "header[alg]=none":
+        h["alg"] = "none"
+    elif edit == "header.clear()":
+        h.clear()
+    elif edit == "payload/claims edited":
+        if hasattr(obj, "claims"):
+            obj.claims["n"] = 99
+        else:
+            obj.payload = b'{"n":99}'
+    r2 = call(verify, forged)
+    if r2.ok:
+        vs.append(viol(f"{ep} returns content signed by another key than the one the received header names, after the caller edited an earlier result [{edit}]: {fam}*",
+                       f"forged token (kid k1 in the received header, signature by k2) verified; returned header {r2.value[1]!r} payload {bytes(r2.value[2])!r}"))
+    r3 = call(verify, genuine2)
+    if not r3.ok:
+        vs.append(viol(f"valid token rejected by {ep} after the caller edited an earlier result [{edit}]: {fam}*", repr(r3.exc)))
+    else:
+        if {k: v for k, v in r3.value[1].items() if k != "typ"} != hdr:
+            vs.append(viol(f"{ep} returns header members other than the signed ones after the caller edited an earlier result [{edit}]: {fam}*", f"{hdr} -> {r3.value[1]}"))
+        if bytes(r3.value[2]) != b'{"n":2}':
+            vs.append(viol(f"{ep} returns a payload other than the signed one after the caller edited an earlier result [{edit}]: {fam}*", repr(bytes(r3.value[2]))))
+    return Outcome(f"after-edit:{'forged-accepted' if r2.ok else 'forged-rejected'}:{'ok' if not vs else 'bad'}", vs, nontrivial=(alg, ep, edit))
+
+
+_pe = Part("after-caller-edits", h_after_caller_edits, split_depth=2)
+_pe.single_bucket_ok = True          # on a tree where the property holds every forged token is rejected: one outcome
 PARTS = [
+    _pe,
     Part("faults", h_faults, bound={"quick": 2, "thorough": 2}, split_depth=4, budget={"quick": 2000, "thorough": 3000}),
 ]
